@@ -2654,9 +2654,12 @@ impl<T: Storage> Raft<T> {
 
         // Now go ahead and actually restore.
 
-        if self.pending_request_snapshot == INVALID_INDEX
-            && self.raft_log.match_term(meta.index, meta.term)
-        {
+        // A snapshot below the index this node asked for does not answer its
+        // request (it is a stale or duplicated one); like an unrequested snapshot
+        // it must not discard entries the node already holds and acknowledged.
+        let answers_request = self.pending_request_snapshot != INVALID_INDEX
+            && meta.index >= self.pending_request_snapshot;
+        if !answers_request && self.raft_log.match_term(meta.index, meta.term) {
             info!(
                 self.logger,
                 "fast-forwarded commit to snapshot";
